@@ -1,5 +1,6 @@
 """C11 - ECU rename/delete/update keep every sender and receiver reference consistent."""
 import fnmatch
+import re
 
 import canmatrix.canmatrix as cm
 
@@ -16,11 +17,19 @@ RULE = ("case 'seq' = (matrix with 1..5 frames, 0..4 signals each, sender/receiv
         "the names of a group agree in their first L characters, in their last L characters or in both (L from 7 to 256, around the usual "
         "identifier limits 8 / 16 / 32 / 64 / 128 / 255), one name of a group may be exactly the common part; new names of renames are cut, "
         "extended or re-tailed names in use (not in use as an exact name), deletion patterns are derived from the names. "
-        "case 'glob' = (pattern, name) for the glob matcher itself, also on the related and the long names. Non-trivial = distinct sequence in which at least one "
+        "A fourth stream of 'seq' cases draws the ECU names from a pool of names WITH SEPARATORS: two or three plain words, all listed in the "
+        "pool by themselves, and names composed of these words with a blank, comma, semicolon, bar, colon, slash, backslash, dot, hyphen, "
+        "tab, doubled blank or another character that is no glob metacharacter in between ('Door Left', 'Door,Left', 'Door (Left)'); no name "
+        "begins or ends with a blank. New names of renames are composed the same way (a name in use joined with another one, a name with "
+        "its separator exchanged, one word of a composed name); deletion by string takes, besides the patterns, the exact name of an ECU in "
+        "use - also a name an earlier rename of the sequence has given -, the words of a composed name joined by another separator (no "
+        "ECU of that name) and patterns with the separator in them. "
+        "case 'glob' = (pattern, name) for the glob matcher itself, also on the related, the long and the composed names. Non-trivial = distinct sequence in which at least one "
         "operation changed the matrix.")
 PARTIAL = ["Ecu objects are modelled by their names (comment and attributes of an ECU play no role in reference maintenance)"]
 ASSUMPTIONS = ["reference lists are duplicate-free and frame receiver lists up to date initially (the state the readers produce)",
-               "new names of renames are not yet in use; ECU names contain no glob metacharacters"]
+               "new names of renames are not yet in use; ECU names contain no glob metacharacters (* ? [ ]); any other character may occur "
+               "inside a name (blank, comma, ...), names do not begin or end with a blank (add_ecu compares stripped names)"]
 TRUSTED = ["fnmatch.fnmatchcase for *, ?, [seq], [!seq], [a-z] is modelled by globMatch and compared directly (op 'glob')"]
 CORRESPONDENCE = "CanMatrix.rename_ecu/del_ecu/update_ecu_list/delete_obsolete_ecus/add_signal_receiver/del_signal_receiver == CanVerif.EMat.apply"
 
@@ -125,6 +134,69 @@ def long_derived(rng, name):
                        rng.choice(TAILS) + name[-c:], name[:c] + "X" + name[c + 1:], name[:len(name) - len(name) // 4] + rng.choice(TAILS)])
 
 
+SEP_WORDS = ["Door", "Left", "Right", "Rear", "Gateway", "GW", "Body", "Tester", "Front", "ECU", "A", "B", "N1", "Node", "T\u00fcr", "x", "Diag", "left"]
+# what may stand between two words of a name: anything but the glob metacharacters * ? [ ]
+SEPS = [" ", " ", " ", " ", ",", ",", ",", ", ", ", ", ";", "; ", "|", ":", "/", "\\", ".", "-", "+", "  ", "\t", " - ", "&", "=", "#", "~", "%", "@", "'", "\"", "^", "$",
+        "!", " and ", "\u00a0", "<", ">", "(", "{", "}"]
+WORD_RE = re.compile(r"[A-Za-z0-9_\u00c0-\u00ff]+")
+
+
+def words_of(name):
+    return WORD_RE.findall(name)
+
+
+def has_sep(name):
+    return len(words_of(name)) > 1 or (bool(name) and WORD_RE.fullmatch(name) is None)
+
+
+def admissible(name):
+    """a name of the property's domain: not empty, no glob metacharacter, no blank at either end"""
+    return bool(name) and name == name.strip() and not any(ch in name for ch in "*?[]")
+
+
+def sep_pool(rng):
+    """10 names: two or three plain words and names composed of them with a separator in between"""
+    a, b, c = rng.sample(SEP_WORDS, 3)
+    s1, s2 = rng.choice(SEPS), rng.choice(SEPS)
+    first = [a, b, a + s1 + b]
+    cands = [c, b + s1 + a, a + s2 + b, b + s2 + a, a + s1 + b + s1 + c, a + s1 + b + s2 + c, a + s1 + c, c + s2 + a, c + s1 + b, a + s1 + a,
+             a + " (" + b + ")", a + "{" + b + "}", a + " <" + c + ">", "!" + a, a + s1 + b.lower(), a + "  " + b, a + " " + b, a + "," + b, a + ", " + b,
+             b + " " + c, a + b, a + "_" + b]
+    cands = [x for x in dedup(cands) if admissible(x) and x not in first]
+    pool = first + rng.sample(cands, min(7, len(cands)))
+    rng.shuffle(pool)
+    return pool
+
+
+def sep_derived(rng, name, names):
+    """a new name composed like the names of the pool: joined with another name, separator exchanged, one word of the name, a word added"""
+    ws = words_of(name) or [name]
+    other = rng.choice(sorted(names))
+    sep = rng.choice(SEPS)
+    new = rng.choice([name + sep + other, other + sep + name, name + sep + rng.choice(SEP_WORDS), sep.join(ws), sep.join(ws), rng.choice(ws),
+                      " ".join(ws), ",".join(ws), name + " " + rng.choice(["Rear", "2", "new", "name"]), "new name", name + sep + name,
+                      sep.join(reversed(ws)), "".join(ws)])
+    return new if admissible(new) else None
+
+
+def sep_patterns(rng, m_names):
+    """deletion strings for the composed names: the exact name, its words joined by another separator (a list of names, not a name),
+    patterns that have the separator in them"""
+    out = []
+    names = sorted(m_names)
+    for _ in range(8):
+        n = rng.choice(names)
+        ws = words_of(n) or [n]
+        w = rng.choice(ws)
+        sep = rng.choice(SEPS)
+        o = rng.choice(names)
+        out.append(rng.choice([n, n, n, sep.join(ws), " ".join(ws), ",".join(ws), ", ".join(ws), "|".join(ws), ";".join(ws), "?".join(ws), "*".join(ws),
+                               w + sep + "*", "*" + sep + w, "*" + sep + "*", w + "?*", "*?" + w, w + "*", "*" + w, w + " " + o, w + "," + o, o + ", " + w,
+                               o + sep + w, n + sep + o, "* *", "*,*", "?*" + sep + "*?", n[:len(n) // 2] + "*", "*" + n[len(n) // 2:], "!" + n,
+                               n + " ", " " + n, n + ",", w + sep]))
+    return out
+
+
 def gen_matrix(rng, POOL=POOL):
     listed = [e for e in POOL if rng.random() < 0.6]
     rng.shuffle(listed)
@@ -149,6 +221,7 @@ def gen_ops(rng, m, n):
     ops = []
     fresh = 0
     related = bool(m.get("pool"))
+    sep = m.get("kind") == "sep"
     POOL = case_pool(m)
     PATTERNS = globals()["PATTERNS"]
     if related:
@@ -163,8 +236,16 @@ def gen_ops(rng, m, n):
                 # a new name of the same family as a name in use (of the renamed ECU or of another one); "not yet in use"
                 # is meant literally: no ECU and no reference has exactly this name
                 src = rng.choice(sorted(names_in_use))
-                new = long_derived(rng, src) if (m.get("kind") == "long" and rng.random() < 0.8) else derived_name(rng, src)
+                if sep:
+                    new = sep_derived(rng, rng.choice([old, src]), names_in_use) if rng.random() < 0.85 else derived_name(rng, src)
+                else:
+                    new = long_derived(rng, src) if (m.get("kind") == "long" and rng.random() < 0.8) else derived_name(rng, src)
                 if not new or new in names_in_use:
+                    new = None
+                # names that begin or end with a blank are kept out of the stream for now: add_ecu compares the STRIPPED name of a listed
+                # ECU with the new name, so update_ecu_list lists a referenced ECU 'Rear ' a second time (genuine defect of the unchanged
+                # code, reported in round 9; found by this stream with [["rename", "Rear (A)", "Rear "], ["update"]])
+                if sep and new is not None and not admissible(new):
                     new = None
             while new is None or new in names_in_use:
                 fresh += 1
@@ -174,7 +255,17 @@ def gen_ops(rng, m, n):
         elif k < 0.45:
             ops.append(["delInst", rng.choice(sorted(names_in_use))])
         elif k < 0.62:
-            ops.append(["delGlob", rng.choice(PATTERNS + POOL)])
+            if sep and rng.random() < 0.75:
+                # by string: the exact name of an ECU in use (of the pool or given by an earlier rename of this sequence), a list of
+                # names that is no name, a pattern with the separator in it
+                r = rng.random()
+                given = [o[2] for o in ops if o[0] == "rename"]
+                if r < 0.15 and given:
+                    ops.append(["delGlob", rng.choice(given)])
+                else:
+                    ops.append(["delGlob", rng.choice(sorted(names_in_use)) if r < 0.5 else rng.choice(sep_patterns(rng, names_in_use))])
+            else:
+                ops.append(["delGlob", rng.choice(PATTERNS + POOL)])
         elif k < 0.74:
             ops.append(["update"])
         elif k < 0.84:
@@ -215,6 +306,17 @@ def gen(rng, tier, shard, nshards):
     for _ in range(total // 16):
         pool = long_pool(rng)
         yield {"op": "glob", "c": [rng.choice(related_patterns(rng, pool)), rng.choice(pool + [long_derived(rng, rng.choice(pool))])]}
+    # names with a separator inside (blank, comma, ...) next to the ECUs named by their words: a name is one string, never a list or a pattern
+    for _ in range(total // 3):
+        pool = sep_pool(rng)
+        m = gen_matrix(rng, pool)
+        m["pool"] = pool
+        m["kind"] = "sep"
+        yield {"op": "seq", "c": {"m": m, "ops": gen_ops(rng, m, rng.randint(1, maxlen))}}
+    for _ in range(total // 16):
+        pool = sep_pool(rng)
+        yield {"op": "glob", "c": [rng.choice(sep_patterns(rng, pool) + related_patterns(rng, pool)[:2]),
+                                   rng.choice(pool + [sep_derived(rng, rng.choice(pool), pool) or pool[0]])]}
 
 
 def neighbours(case, rng, shard, nshards):
@@ -287,9 +389,12 @@ def features(case, impl):
     if case["op"] == "seq":
         m = case["c"]["m"]
         prev = m
-        yield "names=" + ("long (common leading / trailing part)" if m.get("kind") == "long" else "related (containment / letter case)" if m.get("pool") else "fixed pool")
+        yield "names=" + ("long (common leading / trailing part)" if m.get("kind") == "long" else "composed with separators (blank, comma, ...)" if m.get("kind") == "sep" else "related (containment / letter case)" if m.get("pool") else "fixed pool")
         if m.get("kind") == "long":
             for f in long_features(case, impl):
+                yield f
+        if m.get("kind") == "sep":
+            for f in sep_features(case, impl):
                 yield f
         for op, st in zip(case["c"]["ops"], impl["states"]):
             changed = (st["ecus"] != prev["ecus"]) or (st["frames"] != prev["frames"])
@@ -340,6 +445,47 @@ def long_features(case, impl):
                     yield "%s that shares its first >=%d characters with another listed ECU" % (what, lim)
                 if trail >= lim:
                     yield "%s that shares its last >=%d characters with another listed ECU" % (what, lim)
+        prev = st
+
+
+def sep_kind(name):
+    return "blank" if " " in name else "comma" if "," in name else "other separator"
+
+
+def sep_features(case, impl):
+    """what the cases with composed names reached: an ECU with a separator in its name deleted by its name / removed as obsolete / added by
+    update / renamed, while the ECUs named by its words are listed (or referenced) too; a deletion string that lists names"""
+    prev = case["c"]["m"]
+    renamed_to = set()
+    for op, st in zip(case["c"]["ops"], impl["states"]):
+        present = set(prev["ecus"]) | {r for f in prev["frames"] for r in f[1] + f[2]}
+        gone = [e for e in prev["ecus"] if e not in st["ecus"]]
+        parts = lambda n: [w for w in words_of(n) if w != n and w in present]
+        if op[0] == "delGlob":
+            if op[1] in prev["ecus"] and has_sep(op[1]):
+                yield "delGlob by the exact name of a listed ECU, name with %s%s%s" % (
+                    sep_kind(op[1]), "; ECUs named by its words are present" if parts(op[1]) else "",
+                    "; name given by an earlier rename" if op[1] in renamed_to else "")
+            elif op[1] not in prev["ecus"] and has_sep(op[1]) and not any(ch in op[1] for ch in "*?[]") and parts(op[1]):
+                yield "delGlob by a string that lists present ECUs (%s) and is no name: %s" % (sep_kind(op[1]), "changed" if gone else "noop")
+            elif has_sep(op[1]) and any(ch in op[1] for ch in "*?") and gone:
+                yield "delGlob by a pattern with a separator in it: deletes"
+        if op[0] == "delInst" and op[1] in prev["ecus"] and has_sep(op[1]):
+            yield "delInst of a listed ECU, name with %s" % sep_kind(op[1])
+        if op[0] == "obsolete":
+            for g in gone:
+                if has_sep(g):
+                    yield "obsolete removes an ECU, name with %s%s" % (sep_kind(g), "; ECUs named by its words are present" if parts(g) else "")
+        if op[0] == "update":
+            for e in st["ecus"]:
+                if e not in prev["ecus"] and has_sep(e):
+                    yield "update adds an ECU, name with %s" % sep_kind(e)
+        if op[0] == "rename" and op[1] in prev["ecus"]:
+            if has_sep(op[2]):
+                yield "rename of a listed ECU to a name with %s" % sep_kind(op[2])
+                renamed_to.add(op[2])
+            if has_sep(op[1]):
+                yield "rename of a listed ECU whose name has: %s" % sep_kind(op[1])
         prev = st
 
 
